@@ -410,7 +410,10 @@ class Ctx:
         self.violations.append((path, "trace spec %s has no step for event #%d: %s" % (module, off + 1, ev[:300])))
 
     # ------------------------------------------------------------------ finish
-    def finish(self, level="model_checking", rule=None, exhaustive_note=None, coverage_extra=None):
+    def finish(self, level=None, rule=None, exhaustive_note=None, coverage_extra=None):
+        # the level a check claims is fixed when it starts (level_default), so that a run that ends early - a
+        # library panic, say - writes an evidence record of the same level as a complete one
+        level = level or getattr(self, "level_default", None) or "model_checking"
         wall = time.time() - self.t0
         states = sum(m["distinct"] for m in self.mc)
         trans = sum(m["generated"] for m in self.mc)
